@@ -16,18 +16,18 @@ def within(codec, k, r, ln, m, N1, seed):
 
 class P(StreamProperty):
     pid = 'C09'
-    module = 'OpenFecVerif.Props.C09'
-    theorems = ['C09_accept_iff', 'C09_limits', 'C09_reject_keeps_unconfigured', 'C09_bad_esi_rejected']
+    module = 'OpenFecVerif.Props.C09Total'
+    theorems = ['C09_accept_iff', 'C09_limits', 'C09_reject_keeps_unconfigured', 'C09_bad_esi_rejected', 'C09_ldpc_construction_returns', 'C09_accept_iff_limits', 'C09_generic_validation', 'C09_rs8_validation', 'C09_rs2m_validation', 'C09_ldpc_validation', 'C09_2d_validation', 'C09_limits_are_the_code', 'C09_limits_rs2m', 'C09_build_validation', 'C09_decode_validation', 'C09_decoder_calls_validation', 'C09_recv_guard_is_the_code']
     rule = ('(a) parameter grid on the real library: for each codec every field in {0,1,2,limit-1,limit,limit+1,2^16,2^31-1,2^31,2^32-1} (others valid), every m in 0..17 and values congruent to 4 and 8 modulo 32, 256, 4096 and 32768, N1 in 0..255 boundary values, '
             'seed boundary values; each accepted configuration is followed by a full encode/decode cycle; (b) every single-argument corruption of otherwise valid calls (NULL session, NULL buffer, NULL table, '
-            'ESI = n, n+1, 2^32-1, build ESI < k, wrong role) followed by a check that the session still works; oracle: OK <=> inside the advertised limits, accepted => decodes correctly, corrupted call => error status; '
+            'ESI = n, n+1, 2^32-1, build ESI < k, wrong role; submissions and repair requests on sessions that have no parameters yet or whose parameters were rejected, every codec and role) followed by a check that the session still works; oracle: OK <=> inside the advertised limits, accepted => decodes correctly, corrupted call => error status; '
             'non-trivial = distinct parameter points / corruption scripts')
 
     def project(self, line, out):
         op = line.split()[0]
-        if op in ('params', 'recv', 'recvnull', 'build', 'avail', 'availnull', 'finish', 'new', 'nullses', 'ctrl'):
+        if op in ('params', 'recv', 'recvnull', 'build', 'avail', 'availnull', 'finish', 'new', 'nullses', 'ctrl', 'unconf'):
             d = kv(out)
-            return out if op in ('nullses', 'ctrl') else 'st=' + d.get('st', '?')
+            return out if op in ('nullses', 'ctrl', 'unconf') else 'st=' + d.get('st', '?')
         if op == 'complete':
             return out
         if op == 'sources':
@@ -56,6 +56,11 @@ class P(StreamProperty):
             if op in m.get('must_fail', {}).get(i, ()) or i in m.get('must_fail_idx', ()):
                 if d.get('st') in ('OK', None) and op != 'nullses':
                     return [('c09:bad-arg-accepted:%s' % op, 'corrupted call %r returned %s' % (l, d.get('st')), i)]
+            if op == 'unconf':
+                # n = 0: every ESI is outside 0..n-1, so each of the six calls must be answered with an error status
+                vals = (d.get('recv', 'OK') + ',' + d.get('build', 'OK')).split(',')
+                if o.startswith('ok') and any(v in ('OK', '') for v in vals):
+                    return [('c09:unconfigured-esi-accepted', 'a submission / repair request on a session without parameters did not fail: %s' % o, i)]
             if op == 'nullses':
                 if any(v == 'OK' for kx, v in d.items() if kx != 'complete') or d.get('complete') != '0':
                     return [('c09:null-session-accepted', 'a call with a NULL session did not fail: %s' % o, i)]
@@ -71,10 +76,20 @@ class P(StreamProperty):
                     return [('c09:accepted-but-unusable:%d' % m['codecs'][0], 'configuration accepted but the encode/decode cycle does not return the block', i)]
         return []
 
-    def cycle(self, name, codec, k, r, ln, m, N1, seed, rng, corrupt=False):
+    def cycle(self, name, codec, k, r, ln, m, N1, seed, rng, corrupt=False, probe=False):
         n = k + r
         ok = within(codec, k, r, ln, m, N1 % 256, seed)
-        b = ['new 0 %d 3' % codec, 'params 0 %d %d %d %d %d %d' % (k, r, ln, m, N1, seed)]
+        b = ['new 0 %d 3' % codec]
+        if probe: b += ['unconf 0']
+        b += ['params 0 %d %d %d %d %d %d' % (k, r, ln, m, N1, seed)]
+        # (the listed known finding: RS GF(2^m) accepts n > 2^m - 1; such a session is configured, nothing to probe)
+        known_accept = codec == 2 and m in (4, 8) and 1 <= k <= 2 ** m - 1 and r >= 1 and ln >= 1
+        if probe and not ok and not known_accept:
+            # a rejected configuration leaves the session without parameters: ESI-taking calls are refused, then a valid
+            # configuration is accepted and works (the session stays usable)
+            vk, vr, vm, vN1 = (4, 3, (4 if codec == 2 else 0), (3 if codec == 3 else 0))
+            b += ['unconf 0', 'params 0 %d %d 8 %d %d 9' % (vk, vr, vm, vN1)]
+            k, r, ln, m, N1, seed, n, ok = vk, vr, 8, vm, vN1, 9, vk + vr, True
         meta = {'codecs': {0: codec}, 'k': k, 'expect_decode': False, 'must_fail_idx': set()}
         if ok and n <= 6000 and ln <= 4096:
             b += ['ctrl 0 maxk', 'ctrl 0 maxn', 'payload 0 rand 5', 'cwdump 0']
@@ -95,46 +110,49 @@ class P(StreamProperty):
         c = corr.mk(name, b); c.meta = meta
         return c
 
+    def pc(self, i, *args):
+        return self.cycle('p%d' % i, *args, probe=(i % 3 == 0))
+
     def cases(self, rng, tier):
         cases = []; i = 0
         vals = lambda lim: sorted(set([0, 1, 2, lim - 1, lim, lim + 1, 2 ** 16, 2 ** 31 - 1, 2 ** 31, 2 ** 32 - 1]))
         # RS 2^8
         for k in vals(255):
-            cases.append(self.cycle('p%d' % i, 1, k, 3, 8, 0, 0, 0, rng)); i += 1
+            cases.append(self.pc(i, 1, k, 3, 8, 0, 0, 0, rng)); i += 1
         for r in vals(255):
             for k in (1, 2, 200, 254, 255):
-                cases.append(self.cycle('p%d' % i, 1, k, r, 8, 0, 0, 0, rng)); i += 1
+                cases.append(self.pc(i, 1, k, r, 8, 0, 0, 0, rng)); i += 1
         for ln in [0, 1, 2, 65535, 65536]:
-            cases.append(self.cycle('p%d' % i, 1, 3, 2, ln, 0, 0, 0, rng)); i += 1
+            cases.append(self.pc(i, 1, 3, 2, ln, 0, 0, 0, rng)); i += 1
         for k in range(0, 258):
             for r in (0, 1, 255 - k if 255 - k >= 0 else 0, 256 - k if 256 - k >= 0 else 1):
                 if tier == 'quick' and 10 < k < 245 and k % 16: continue
-                cases.append(self.cycle('p%d' % i, 1, k, r, 2, 0, 0, 0, rng)); i += 1
+                cases.append(self.pc(i, 1, k, r, 2, 0, 0, 0, rng)); i += 1
         # RS 2^m
         for m in list(range(0, 18)) + [32, 36, 40, 64, 68, 72, 132, 136, 255, 256, 260, 264, 4100, 4104, 32772, 32776, 65535, 65532, 65528]:
-            cases.append(self.cycle('p%d' % i, 2, 3, 2, 4, m, 0, 0, rng)); i += 1
+            cases.append(self.pc(i, 2, 3, 2, 4, m, 0, 0, rng)); i += 1
         for m, lim in ((4, 15), (8, 255)):
             for k in vals(lim):
-                cases.append(self.cycle('p%d' % i, 2, k, 2, 4, m, 0, 0, rng)); i += 1
+                cases.append(self.pc(i, 2, k, 2, 4, m, 0, 0, rng)); i += 1
             for r in vals(lim):
                 for k in (1, 2, lim - 1, lim):
-                    cases.append(self.cycle('p%d' % i, 2, k, r, 4, m, 0, 0, rng)); i += 1
+                    cases.append(self.pc(i, 2, k, r, 4, m, 0, 0, rng)); i += 1
             for ln in [0, 1, 65535]:
-                cases.append(self.cycle('p%d' % i, 2, 3, 2, ln, m, 0, 0, rng)); i += 1
+                cases.append(self.pc(i, 2, 3, 2, ln, m, 0, 0, rng)); i += 1
         # LDPC
         for k in vals(50000):
-            cases.append(self.cycle('p%d' % i, 3, k, 5, 2, 0, 3, 12345, rng)); i += 1
+            cases.append(self.pc(i, 3, k, 5, 2, 0, 3, 12345, rng)); i += 1
         for r in vals(50000):
             for k in (1, 10, 49990):
-                cases.append(self.cycle('p%d' % i, 3, k, r, 2, 0, 3, 12345, rng)); i += 1
+                cases.append(self.pc(i, 3, k, r, 2, 0, 3, 12345, rng)); i += 1
         for N1 in [0, 1, 2, 3, 4, 5, 6, 7, 8, 9, 10, 11, 254, 255, 256, 259]:
             for r in (3, 6, 10):
-                cases.append(self.cycle('p%d' % i, 3, 12, r, 2, 0, N1, 12345, rng)); i += 1
+                cases.append(self.pc(i, 3, 12, r, 2, 0, N1, 12345, rng)); i += 1
         for seed in [0, 1, 2, 2 ** 31 - 3, 2 ** 31 - 2, 2 ** 31 - 1, 2 ** 31, 2 ** 32 - 1]:
             # an invalid seed must be rejected whatever the global PRNG state is: precede with another session
-            cases.append(self.cycle('p%d' % i, 3, 12, 6, 2, 0, 3, seed, rng)); i += 1
+            cases.append(self.pc(i, 3, 12, 6, 2, 0, 3, seed, rng)); i += 1
         for ln in [0, 1, 65535]:
-            cases.append(self.cycle('p%d' % i, 3, 12, 6, ln, 0, 3, 77, rng)); i += 1
+            cases.append(self.pc(i, 3, 12, 6, ln, 0, 3, 77, rng)); i += 1
         # (b) corruptions
         for codec, k, r, ln, m, N1, seed in [(1, 4, 3, 8, 0, 0, 0), (2, 4, 3, 8, 4, 0, 0), (2, 5, 4, 8, 8, 0, 0), (3, 6, 5, 4, 0, 3, 9), (3, 5, 6, 4, 0, 4, 9)]:
             for rep in range(2 if tier == 'quick' else 8):
@@ -146,6 +164,10 @@ class P(StreamProperty):
             c = corr.mk('r%d' % i, b); c.meta = {'codecs': {0: codec}, 'k': k, 'must_fail_idx': {4, 5, 6, 8}}; cases.append(c); i += 1
             b = ['new 0 %d 2' % codec, cfgl % 0, 'payload 0 id', 'build 0 %d own' % k, 'recv 0 0', 'complete 0', 'release 0']
             c = corr.mk('r%d' % i, b); c.meta = {'codecs': {0: codec}, 'k': k, 'must_fail_idx': {4}}; cases.append(c); i += 1
+        # sessions that never get parameters: every codec and role
+        for codec in (1, 2, 3):
+            for role in (1, 2, 3):
+                c = corr.mk('u%d' % i, ['new 0 %d %d' % (codec, role), 'unconf 0', 'release 0']); c.meta = {'codecs': {0: codec}, 'k': 0}; cases.append(c); i += 1
         # unknown codec ids
         for cid in (0, 4, 6, 7, 255):
             c = corr.mk('n%d' % i, ['new 0 %d 3' % cid]); c.meta = {'codecs': {0: cid}, 'k': 0}; cases.append(c); i += 1
